@@ -2,9 +2,9 @@ package main
 
 import (
 	"fmt"
-	"os"
 	"go/token"
 	"go/types"
+	"os"
 	"sort"
 	"strconv"
 	"strings"
@@ -69,20 +69,21 @@ func (l *linForm) String() string {
 
 type boundsClient struct {
 	simClient
-	r       *Report
-	fn      string // function under analysis
-	oblOK   map[string]bool
-	oblBad  map[string]string
-	oblPos  map[string]token.Pos
-	cands   map[string][]invCand // loop id -> candidate invariants
-	dropped map[string]map[string]bool
-	changed bool
-	ffState *State
-	ffN     int
-	ffMem   int
-	ffCache []*linForm
-	arrLen  map[string]int64
-	nObl    int
+	r         *Report
+	fn        string // function under analysis
+	oblOK     map[string]bool
+	oblBad    map[string]string
+	oblPos    map[string]token.Pos
+	cands     map[string][]invCand // loop id -> candidate invariants
+	dropped   map[string]map[string]bool
+	changed   bool
+	entryVals map[string]*Term
+	ffState   *State
+	ffN       int
+	ffMem     int
+	ffCache   []*linForm
+	arrLen    map[string]int64
+	nObl      int
 }
 
 // lin linearises an integer term.
@@ -260,25 +261,58 @@ func isIntLike(t *Term) bool {
 	return false
 }
 
-// triviallyNonPos: form <= 0 by signs and type bounds alone.
-func triviallyNonPos(f *linForm) bool {
+// triviallyNonPos: form <= 0 by signs, type bounds and the constant bounds
+// that single-atom facts of the path give (lo/hi may be nil).
+func triviallyNonPos(f *linForm, lo, hi map[string]int64) bool {
 	c := f.c
 	for k, co := range f.coef {
 		a := f.atom[k]
 		switch {
-		case co < 0 && nonNeg(a):
-			// contributes <= 0
+		case co < 0:
+			l, ok := lo[k]
+			if nonNeg(a) && (!ok || l < 0) {
+				l, ok = 0, true
+			}
+			if !ok {
+				return false
+			}
+			c += co * l
 		case co > 0:
-			u, ok := upperOf(a)
+			u, ok := hi[k]
+			if tu, tok := upperOf(a); tok && (!ok || tu < u) {
+				u, ok = tu, true
+			}
 			if !ok {
 				return false
 			}
 			c += co * u
-		default:
-			return false
 		}
 	}
 	return c <= 0
+}
+
+// atomBounds extracts constant lower/upper bounds of single atoms from the facts.
+func atomBounds(facts []*linForm) (map[string]int64, map[string]int64) {
+	lo, hi := map[string]int64{}, map[string]int64{}
+	for _, f := range facts {
+		if len(f.coef) != 1 {
+			continue
+		}
+		for k, co := range f.coef {
+			// co*a + c <= 0
+			if co == 1 {
+				if u, ok := hi[k]; !ok || -f.c < u {
+					hi[k] = -f.c
+				}
+			}
+			if co == -1 {
+				if l, ok := lo[k]; !ok || f.c > l {
+					lo[k] = f.c
+				}
+			}
+		}
+	}
+	return lo, hi
 }
 
 func shares(f, g *linForm) bool {
@@ -292,14 +326,15 @@ func shares(f, g *linForm) bool {
 
 // prove goal <= 0 from at most three facts (bounded Fourier-Motzkin step).
 func (b *boundsClient) prove(st *State, goal *linForm) bool {
-	if triviallyNonPos(goal) {
+	facts := b.factForms(st)
+	lo, hi := atomBounds(facts)
+	if triviallyNonPos(goal, lo, hi) {
 		return true
 	}
-	facts := b.factForms(st)
 	used := make([]bool, len(facts))
 	var rec func(g *linForm, depth int) bool
 	rec = func(g *linForm, depth int) bool {
-		if triviallyNonPos(g) {
+		if triviallyNonPos(g, lo, hi) {
 			return true
 		}
 		if depth == 0 {
@@ -544,7 +579,7 @@ func (b *boundsClient) SafeConv(x *Exec, st *State, v *Term, fromBits int, fromS
 
 type invCand struct {
 	phi  string
-	base ssa.Value
+	base ssa.Value // "phi < len(base)"; nil for "len(phi) <= len(entry value of phi)"
 	key  string
 }
 
@@ -557,9 +592,17 @@ func (b *boundsClient) OnLoopHead(x *Exec, st *State, fr *Frame, loopID string, 
 		if b.dropped[loopID][c.key] {
 			continue
 		}
-		if v, ok := phis[c.phi]; ok {
-			st.setFact(b.candAtom(x, st, fr, c, v), true)
+		v, ok := phis[c.phi]
+		if !ok {
+			continue
 		}
+		if c.base == nil {
+			if e := b.entryVals[loopID+"/"+c.phi]; e != nil {
+				st.setFact(tLt(mk("len", "", types.Typ[types.Int], e), mk("len", "", types.Typ[types.Int], v)), false)
+			}
+			continue
+		}
+		st.setFact(b.candAtom(x, st, fr, c, v), true)
 	}
 }
 
@@ -570,6 +613,24 @@ func (b *boundsClient) OnLoopEdge(x *Exec, st *State, fr *Frame, loopID string, 
 		}
 		v, ok := vals[c.phi]
 		if !ok {
+			continue
+		}
+		if c.base == nil {
+			if entry {
+				if b.entryVals == nil {
+					b.entryVals = map[string]*Term{}
+				}
+				b.entryVals[loopID+"/"+c.phi] = v
+				continue
+			}
+			e := b.entryVals[loopID+"/"+c.phi]
+			if e == nil || !b.prove(st, b.linLen(st, v).add(b.linLen(st, e), -1)) {
+				if b.dropped[loopID] == nil {
+					b.dropped[loopID] = map[string]bool{}
+				}
+				b.dropped[loopID][c.key] = true
+				b.changed = true
+			}
 			continue
 		}
 		base := x.val(fr, c.base)
@@ -600,6 +661,10 @@ func candidateInvariants(fn *ssa.Function, x *Exec) map[string][]invCand {
 				ph, ok := ins.(*ssa.Phi)
 				if !ok {
 					break
+				}
+				if _, isSl := ph.Type().Underlying().(*types.Slice); isSl {
+					res[id] = append(res[id], invCand{phi: ph.Name(), base: nil, key: "len(" + ph.Name() + ")<=len(entry)"})
+					continue
 				}
 				if bt, ok := ph.Type().Underlying().(*types.Basic); !ok || bt.Info()&types.IsInteger == 0 {
 					continue
@@ -669,6 +734,7 @@ func checkBounds(p *Program, r *Report) {
 			bc.simClient = simClient{p: p, cfg: boundsCfg(bc)}
 			x := newExec(p, bc)
 			x.StrictConv = true
+			x.HavocSlicePhis = true
 			if bc.cands == nil {
 				bc.cands = candidateInvariants(fn, x)
 			}
@@ -695,8 +761,23 @@ func checkBounds(p *Program, r *Report) {
 						}
 						n := bc.lin(res.St, res.Vals[0])
 						l := bc.linLen(res.St, args[1])
-						if !bc.prove(res.St, newLin().add(n, -1)) || !bc.prove(res.St, n.add(l, -1)) {
+						// n = len(buf) - len(rest): n <= len(buf) because the length of the
+						// (valid, see the slice obligations) rest is not negative
+						upper := false
+						if v := res.Vals[0]; v.Op == "bin" && v.Aux == "-" && v.Args[0].Op == "len" && v.Args[0].Args[0] == args[1] && v.Args[1].Op == "len" {
+							upper = true
+						}
+						if !upper {
+							upper = bc.prove(res.St, n.add(l, -1))
+						}
+						if !bc.prove(res.St, newLin().add(n, -1)) || !upper {
 							good = false
+							if os.Getenv("RSA_DEBUG") == "11" {
+								fmt.Fprintf(os.Stderr, "CONTRACT %s: n=%s  val=%s upper=%v\n", name, n, res.Vals[0].key, upper)
+								for _, f := range bc.factForms(res.St) {
+									fmt.Fprintf(os.Stderr, "   fact %s\n", f)
+								}
+							}
 						}
 					}
 					if good {
